@@ -129,7 +129,8 @@ def run(ctx):
     # logs are truncated oldest first (a power loss between two truncations must leave a suffix-closed set of logs:
     # an older log surviving while a newer one is gone would be replayed over newer flushed state)
     shared.queue_discipline(ctx, '3q')
-    shared.failed_cleanup_keeps_queue_order(ctx, '3')   # also when a truncation fails: the logs not cleaned stay in front of the newer ones
+    shared.failed_cleanup_keeps_queue_order(ctx, '3')
+    shared.no_log_handle_destroyed_in_cleanup(ctx, '3')   # also when a truncation fails: the logs not cleaned stay in front of the newer ones
     shared.torn_record_not_handed_over(ctx, '1')        # only complete records reach the stage that writes tables
     # every table the applier may write to is msynced by the column flush that precedes log truncation: besides the current index,
     # the value tables and the current ref-count table these are the OLD index / ref-count tables still queued for re-indexing
